@@ -135,6 +135,19 @@ def render_node(ctx, n, keypos=False):
                     vt, vid = render_node(ctx, vn)
                     parts.append("%s: %s" % (kt, vt))
                 ctx.expect[nid][1].append((kid, vid))
+            if k == "m" and nid % 4 == 1:
+                # a merge key in the mapping (a quarter of the plain mappings, a pure function of the graph): the merged-in entry is
+                # one more scalar pair of the loaded dict; identity of everything inside and outside the mapping must not change
+                mk, mv = _new(ctx, "s"), _new(ctx, "s")
+                ctx.expect[mk] = ("s", "mg%d" % nid)
+                ctx.expect[mv] = ("s", "mgv")
+                ctx.expect.setdefault("merged", set()).add(mk)
+                ctx.expect[nid][1].append((mk, mv))
+                src = "<<: {mg%d: mgv}" % nid if nid % 8 == 1 else "<<: [{mg%d: mgv}, {mg%d: other}]" % (nid, nid)
+                parts.insert((nid // 8) % (len(parts) + 1), src)
+                ctx.cl.add("merge-key-in-mapping")
+                if any(vn[0] == "a" or (isinstance(vn[1], bool) and vn[1]) for _, vn in n[2]):
+                    ctx.cl.add("merge-key-beside-anchor-or-alias")
             if k == "objs":
                 ctx.has_objs = True
             tag = {"obj": "!!python/object:canary_objs.Node ", "objs": "!!python/object:canary_objs.NodeS ", "m": ""}[k]
@@ -349,9 +362,12 @@ def match_nodes(node, rid, expect, a2p, p2a, path="$"):
                 else:
                     stack.append((x, c, "%s[%d]" % (path, i)))
         elif kind in ("m", "obj", "objs"):
-            if o.id != "mapping" or len(o.value) != len(e[1]):
+            merged = expect.get("merged", ())
+            want = [pr for pr in e[1] if pr[0] not in merged]
+            have = [pr for pr in o.value if pr[0].tag != T + "merge"] if o.id == "mapping" else []
+            if o.id != "mapping" or len(have) != len(want) or len(o.value) - len(have) != len(e[1]) - len(want):
                 return "%s: mapping node of %d expected" % (path, len(e[1]))
-            for i, ((kn, vn), (kid, vid)) in enumerate(zip(o.value, e[1])):
+            for i, ((kn, vn), (kid, vid)) in enumerate(zip(have, want)):
                 stack.append((kn, kid, "%s{%d}.k" % (path, i)))
                 stack.append((vn, vid, "%s{%d}.v" % (path, i)))
         elif kind == "set":
